@@ -72,8 +72,18 @@ type Frame struct {
 	entry *Snapshot
 }
 
+type restrictEntry struct {
+	heap      string
+	sort      Sort
+	root      *Term // backing array (at loop entry) that may be written
+	entryHeap *Term
+	nowEntry  *Term
+	expr      string
+}
+
 type Snapshot struct {
 	mods  map[string]Sort // for loop heads: the declared modifies set
+	restr []restrictEntry
 	heaps map[string]*Term
 	alloc *Term
 	epoch int
